@@ -1582,6 +1582,45 @@ const char *vnaproperty_vget(const vnaproperty_t *root,
 }
 
 /*
+ * check_set_expression: validate a modifying expression before the tree is touched
+ *   @format:    printf-like format string forming the property expression
+ *   @ap:        variable argument pointer (not consumed)
+ *   @assigning: true for vnaproperty_vset, false for vnaproperty_vset_subtree
+ *
+ * parse_and_descend with set=true creates and replaces nodes along the
+ * path as it goes.  Reject expressions that are going to be refused
+ * anyway before that happens, so that a failed call leaves the tree as
+ * it was.
+ */
+static int check_set_expression(const char *format, va_list ap, bool assigning)
+{
+    parser_t parser;
+    va_list ap_copy;
+    bool ok;
+
+    va_copy(ap_copy, ap);
+    if (parse(&parser, format, ap_copy) == -1) {
+	va_end(ap_copy);
+	return -1;
+    }
+    va_end(ap_copy);
+    if (assigning) {
+	ok = parser.prs_tail->ex_type != E_MAP &&
+	     parser.prs_tail->ex_type != E_LIST &&
+	     (parser.prs_scn.scn_token == T_ASSIGN ||
+	      parser.prs_scn.scn_token == T_HASH);
+    } else {
+	ok = parser.prs_scn.scn_token == T_EOF;
+    }
+    parser_free(&parser);
+    if (!ok) {
+	errno = EINVAL;
+	return -1;
+    }
+    return 0;
+}
+
+/*
  * vnaproperty_vset: set a property value from a property expression
  *   @rootptr: address of root property pointer
  *   @format:  printf-like format string forming the property expression
@@ -1595,6 +1634,9 @@ int vnaproperty_vset(vnaproperty_t **rootptr, const char *format, va_list ap)
     vnaproperty_t *value = NULL;
     int rv = -1;
 
+    if (check_set_expression(format, ap, /*assigning*/true) == -1) {
+	return -1;
+    }
     if ((anchor = parse_and_descend(&parser, rootptr, /*set*/true,
 		    format, ap)) == NULL) {
 	return -1;
@@ -1754,6 +1796,9 @@ vnaproperty_t **vnaproperty_vset_subtree(vnaproperty_t **rootptr,
     scanner_t *scanner = &parser.prs_scn;
     vnaproperty_t **anchor;
 
+    if (check_set_expression(format, ap, /*assigning*/false) == -1) {
+	return NULL;
+    }
     if ((anchor = parse_and_descend(&parser, rootptr,
 		    /*set*/true, format, ap)) == NULL) {
 	return NULL;
